@@ -1,2 +1,3 @@
--- driver stub (not built yet)
-def main : IO Unit := pure ()
+-- C07 shares the C06 driver (`drv_c06`); this target only has to exist and link.
+import QmcModel.Worldline
+def main : IO Unit := IO.println "use drv_c06"
